@@ -57,6 +57,7 @@ type Action struct {
 	FDir     bool     `json:"fdir,omitempty"`
 	Tmpl     bool     `json:"tmpl,omitempty"`
 	OneShell bool     `json:"one_shell,omitempty"`
+	IPv6     bool     `json:"ipv6,omitempty"` // -ipv6-one-liners
 	Port443  bool     `json:"port443,omitempty"`
 	// get_c
 	C2Q     string `json:"c2q,omitempty"`
@@ -566,7 +567,7 @@ func (s *sim) doBoot(a Action) {
 		tmplf = s.tmplPath
 	}
 	sl := slog.New(slog.NewJSONHandler(s.logBuf, &slog.HandlerOptions{Level: slog.LevelDebug}))
-	svr, err := hsrv.New(sl, a.Listen, fdir, tmplf, s.ich, s.och, iob, cert, a.CB, false, a.OneShell)
+	svr, err := hsrv.New(sl, a.Listen, fdir, tmplf, s.ich, s.och, iob, cert, a.CB, a.IPv6, a.OneShell)
 	if err != nil {
 		s.harnessErr = fmt.Sprintf("hsrv.New(%q) failed although nothing was faulted: %v", a.Listen, err)
 		return
